@@ -203,7 +203,9 @@ def main():
         try:
             scene, its = scenario.generate(maxIterations=spec.get("maxIterations", 400), verbosity=0)
         except Exception as e:
-            return None, {"error": _exc(e), "obs": last_per_tag(F.LOG)}
+            # (values seen by requirements are only deterministic for the accepted sample: which requirement is
+            # evaluated last on a rejected sample legitimately depends on the time-weighted check order)
+            return None, {"error": _exc(e)}
         return scene, {"scene": canon.dump_scene(scene), "iterations": its, "obs": last_per_tag(F.LOG)}
 
     def sim_one(scene):
